@@ -33,6 +33,9 @@ type Tok struct {
 type Groups struct {
 	Nums  []int          // group numbers in Groups() order (index = slot)
 	Names map[string]int // name -> number (includes numeric names)
+	// ECMA selects the ECMAScript rule for an un-braced $ followed by digits: the reference is the
+	// longest prefix of the digit run that names an existing group, the remaining digits are text.
+	ECMA bool
 }
 
 func (g Groups) hasNum(n int) bool {
@@ -46,7 +49,7 @@ func (g Groups) hasNum(n int) bool {
 
 func isDigit(r rune) bool { return r >= '0' && r <= '9' }
 
-// Parse tokenises a replacement string (non-ECMAScript rules): a reference that does not name an
+// Parse tokenises a replacement string (g.ECMA selects the ECMAScript $nn rule): a reference that does not name an
 // existing group is literal text, '$' at the end is literal.
 func Parse(rep string, g Groups) []Tok {
 	r := []rune(rep)
@@ -90,7 +93,24 @@ func Parse(rep string, g Groups) []Tok {
 				}
 				j++
 			}
-			if !angled {
+			if !angled && g.ECMA {
+				best, bestEnd, w := -1, pos, 0
+				for k := pos; k < j; k++ {
+					d := int(r[k] - '0')
+					if w > (math.MaxInt32-d)/10 {
+						break
+					}
+					w = w*10 + d
+					if g.hasNum(w) {
+						best, bestEnd = w, k+1
+					}
+				}
+				if best >= 0 {
+					toks = append(toks, Tok{K: Group, Num: best})
+					i = bestEnd
+					continue
+				}
+			} else if !angled {
 				if g.hasNum(v) {
 					toks = append(toks, Tok{K: Group, Num: v})
 					i = j
